@@ -176,21 +176,51 @@ def run_driver_on(lines):
     return d.stdout.splitlines()
 
 
-def classify(recs, verdicts):
-    """Split verdict lines. Returns dict of lists of (index, record, verdict)."""
-    out = {"ok": [], "disagree": [], "oracle": [], "bad": [], "known": []}
+def classify(recs, verdicts, pid, spec):
+    """Split verdict lines into items relevant for property `pid`.
+    A verdict line is `ok flags…` or a ` ;; `-separated list of items
+    `ORACLE-FAIL <Cxx> …` / `DISAGREE <STAGE.sub> …` / `KNOWN <Cxx> <signature>` (the first item of
+    a KNOWN line carries the flags)."""
+    out = {"ok": [], "disagree": [], "oracle": [], "bad": [], "known": [], "other": []}
+    own = spec.get("oracle_ids", [pid])
+    cone = spec.get("cone", ["*"])
     for i, v in enumerate(verdicts):
         rec = recs[i] if i < len(recs) else ""
         if v.startswith("ok"):
             out["ok"].append((i, rec, v))
-        elif v.startswith("ORACLE-FAIL"):
-            out["oracle"].append((i, rec, v))
-        elif v.startswith("DISAGREE"):
-            out["disagree"].append((i, rec, v))
-        elif v.startswith("KNOWN"):
-            out["known"].append((i, rec, v))
-        else:
-            out["bad"].append((i, rec, v))
+            continue
+        items = v.split(" ;; ")
+        relevant = False
+        flags_item = None
+        for it in items:
+            t = it.split()
+            if not t:
+                continue
+            if t[0] == "ORACLE-FAIL" and len(t) > 1:
+                if t[1] in own:
+                    out["oracle"].append((i, rec, it))
+                    relevant = True
+                else:
+                    out["other"].append((i, rec, it))
+            elif t[0] == "DISAGREE" and len(t) > 1:
+                if "*" in cone or any(t[1].startswith(c) for c in cone):
+                    out["disagree"].append((i, rec, it))
+                    relevant = True
+                else:
+                    out["other"].append((i, rec, it))
+            elif t[0] == "KNOWN" and len(t) > 2 and re.fullmatch(r"C\d+", t[1]):
+                if t[1] in own:
+                    out["known"].append((i, rec, it))
+                else:
+                    out["other"].append((i, rec, it))
+            elif t[0] == "KNOWN":
+                flags_item = it
+            else:
+                out["bad"].append((i, rec, it))
+                relevant = True
+        if not relevant:
+            # nothing in this line concerns this property: count the record as explored
+            out["ok"].append((i, rec, "ok " + " ".join((flags_item or "").split()[1:])))
     return out
 
 
@@ -280,20 +310,25 @@ def check(pid, tier, seed):
         for st in spec["stages"]:
             stage, extra = (st, []) if isinstance(st, str) else (st[0], st[1])
             info, recs, verdicts = run_stage(stage, tier, seed, extra)
-            cl = classify(recs, verdicts)
+            cl = classify(recs, verdicts, pid, spec)
             info.update({k: len(v) for k, v in cl.items()})
             stages_info.append(info)
             evaluations += len(recs)
             if info["harness_rc"] != 0 or info["driver_rc"] != 0 or len(verdicts) != len(recs):
                 violations.append(("pipeline", {"what": "harness or driver failed", "info": info}, False))
-            for i, rec, v in cl["ok"] + cl["known"]:
+            for i, rec, v in cl["ok"]:
                 toks = v.split()
                 for f in toks[1:]:
                     flags[f] = flags.get(f, 0) + 1
                 if "nt" in toks:
                     distinct.add(hashlib.md5(rec.split("=>")[0].encode()).digest())
-                if v.startswith("KNOWN"):
-                    known_seen.append(v)
+            listed = {f["signature"]: f for f in known.get("findings", []) if f.get("property") == pid or pid in f.get("also", [])}
+            for i, rec, v in cl["known"]:
+                sig = v.split()[2]
+                if sig in listed:
+                    known_seen.append((sig, listed[sig].get("what", "")))
+                else:
+                    violations.append(("oracle", {"stage": stage, "record": rec, "verdict": v + " (signature not listed in known_findings.json)", "property": pid}, True))
             for i, rec, v in cl["ok"][:: max(1, len(cl["ok"]) // 3)][:3]:
                 samples.append({"stage": stage, "record": rec[:600], "verdict": v[:200]})
             for i, rec, v in cl["oracle"]:
@@ -303,9 +338,10 @@ def check(pid, tier, seed):
             for i, rec, v in cl["bad"]:
                 violations.append(("pipeline", {"stage": stage, "record": rec[:2000], "verdict": v}, False))
             oracle_evals += len(cl["ok"]) + len(cl["oracle"]) + len(cl["known"])
+            info["other_property_items"] = len(cl["other"])
 
     # known findings: a KNOWN line is printed by the driver only for listed signatures
-    kf_lines = sorted(set(" ".join(k.split()[1:4]) for k in known_seen))
+    kf_lines = sorted(set(f"{sig} {what}" for sig, what in known_seen))
 
     # verdict
     rc = 0
